@@ -88,6 +88,9 @@ pub struct Sim {
     pub livelock: bool,
     /// the source has ended or failed: later deliveries are dropped
     pub src_over: bool,
+    /// answers and events show long pattern runs as `z` tokens (`hexz`); off unless the harness that
+    /// owns the endpoint asks for it (the tokens are always understood in stimulus lines)
+    pub compact: bool,
 }
 
 fn err_name(e: &Error) -> &'static str {
@@ -111,6 +114,49 @@ fn poll_once<F: Future>(fut: F) -> Poll<F::Output> {
     let mut cx = Context::from_waker(&w);
     let mut fut = std::pin::pin!(fut);
     fut.as_mut().poll(&mut cx)
+}
+
+/// Shortest run of pattern bytes that is written as a `z` token.
+pub const ZMIN: usize = 1024;
+
+/// `n` bytes `k, k+1, …` modulo 251: the payload of the huge-write cases.
+#[must_use]
+pub fn pattern(n: usize, k: u8) -> Vec<u8> {
+    (0..n).map(|i| ((usize::from(k) + i) % 251) as u8).collect()
+}
+
+fn is_pattern(b: &[u8]) -> bool {
+    !b.is_empty() && b[0] < 251 && b.iter().enumerate().all(|(i, x)| usize::from(*x) == (usize::from(b[0]) + i) % 251)
+}
+
+/// Hex (or `-`), except that a long byte string that is — after a prefix of 0 or 5 bytes (a frame
+/// header) — a run of pattern bytes is written `<hex of the prefix>z:<n>:<k>`, so that the stimulus
+/// lines, traces and replays of the huge-write cases stay short (`drv_mux` reads and writes the same
+/// tokens).
+#[must_use]
+pub fn hexz(b: &[u8]) -> String {
+    if b.len() >= ZMIN {
+        for p in [0usize, 5] {
+            if b.len() >= p + ZMIN && is_pattern(&b[p..]) {
+                return format!("{}z:{}:{}", hex(&b[..p]), b.len() - p, b[p]);
+            }
+        }
+    }
+    hexd(b)
+}
+
+/// Inverse of `hexz` (plain hex and `-` included).
+#[must_use]
+pub fn unhexz(s: &str) -> Option<Vec<u8>> {
+    let Some((pre, z)) = s.split_once("z:") else { return crate::unhex(s) };
+    let (n, k) = z.split_once(':')?;
+    let (n, k): (usize, u8) = (n.parse().ok()?, k.parse().ok()?);
+    if n > 1 << 24 || k >= 251 {
+        return None;
+    }
+    let mut v = if pre.is_empty() { vec![] } else { crate::unhex(pre)? };
+    v.extend(pattern(n, k));
+    Some(v)
 }
 
 #[must_use]
@@ -148,6 +194,7 @@ impl Sim {
             exited: None,
             livelock: false,
             src_over: false,
+            compact: false,
         };
         // first poll of the task (registers its wakers); produces no observable event
         let _ = s.settle();
@@ -208,7 +255,7 @@ impl Sim {
                 evs.push("wclose".to_string());
                 self.close_seen = true;
             }
-            evs.push(format!("wire {}", msg_text(m)));
+            evs.push(format!("wire {}", match m { Message::Binary(b) if self.compact => hexz(b), m => msg_text(m) }));
         }
         self.out_seen += msgs.len();
         if !self.close_seen && closed_at == Some(self.out_seen) {
@@ -265,14 +312,30 @@ impl Sim {
             }
             ["write", h, d] => {
                 let h = num(h) as usize;
-                let d = crate::unhex(d).expect("hex");
+                let d = unhexz(d).expect("hex");
                 self.write(h, &[&d])
             }
             ["writev", h, ps @ ..] => {
                 let h = num(h) as usize;
-                let ps: Vec<Vec<u8>> = ps.iter().map(|p| crate::unhex(p).expect("hex")).collect();
+                let ps: Vec<Vec<u8>> = ps.iter().map(|p| unhexz(p).expect("hex")).collect();
                 let refs: Vec<&[u8]> = ps.iter().map(Vec::as_slice).collect();
                 self.write_v(h, &refs)
+            }
+            ["wpush", h, d] => {
+                // the frame-level writer `MuxStream::poll_write_push` (public): one `Push` frame with
+                // exactly this payload, the empty one included (what an older or a foreign peer sends)
+                let h = num(h) as usize;
+                let d = unhexz(d).expect("hex");
+                let Some(x) = self.handles.get_mut(h) else { return "badhandle".into() };
+                let Some(s) = x.stream.as_ref() else { return "badhandle".into() };
+                x.wflag.take();
+                let w = x.wflag.waker();
+                let cx = Context::from_waker(&w);
+                match s.poll_write_push(&cx, &d) {
+                    Poll::Pending => { x.parked = true; "pending".into() }
+                    Poll::Ready(Some(())) => { x.parked = false; format!("wrote {}", d.len()) }
+                    Poll::Ready(None) => { x.parked = false; "brokenpipe".into() }
+                }
             }
             ["read", h, n] => {
                 let (h, n) = (num(h) as usize, num(n) as usize);
@@ -286,7 +349,7 @@ impl Sim {
                     Poll::Pending => "pending".into(),
                     Poll::Ready(Err(e)) => format!("ioerr {:?}", e.kind()),
                     Poll::Ready(Ok(())) => {
-                        if rb.filled().is_empty() { "eof".into() } else { format!("data {}", hex(rb.filled())) }
+                        if rb.filled().is_empty() { "eof".into() } else if self.compact { format!("data {}", hexz(rb.filled())) } else { format!("data {}", hex(rb.filled())) }
                     }
                 }
             }
@@ -400,7 +463,7 @@ impl Sim {
             // nothing arrives any more once the source has ended or failed
             ["deliver", ..] if self.src_over => "unit".into(),
             ["deliver", "bin", h] => {
-                self.ws.deliver(In::Msg(Message::Binary(Bytes::from(crate::unhex(h).expect("hex")))));
+                self.ws.deliver(In::Msg(Message::Binary(Bytes::from(unhexz(h).expect("hex")))));
                 "unit".into()
             }
             ["deliver", "ping"] => { self.ws.deliver(In::Msg(Message::Ping)); "unit".into() }
@@ -413,6 +476,21 @@ impl Sim {
                 "unit".into()
             }
             ["deliver", "err"] => { self.ws.deliver(In::Err); self.src_over = true; "unit".into() }
+            ["deliver", "closeerr"] => {
+                // the peer sends Close and the connection is then reset instead of being shut down
+                // cleanly: the receive half yields an error after the Close
+                self.ws.deliver(In::Msg(Message::Close));
+                self.ws.deliver(In::Err);
+                self.src_over = true;
+                "unit".into()
+            }
+            ["deliver", "err2"] => {
+                // a receive half that reports its failure twice (a second error queued behind the first)
+                self.ws.deliver(In::Err);
+                self.ws.deliver(In::Err);
+                self.src_over = true;
+                "unit".into()
+            }
             ["deliver", "eof"] => { self.ws.end_source(); self.src_over = true; "unit".into() }
             _ => "bad-op".into(),
         }
